@@ -397,7 +397,7 @@ def run_property(pid, tier, seed, replay=None):
     changed = anchors_changed(pid)
     gen_tier = tier
     if changed and tier == "quick":
-        gen_tier = "escalated"   # a modelled source file changed: 6x the quick generator budget
+        gen_tier = "escalated"   # a modelled source file changed: 3x the quick generator budget
     if hok and driver_ok and spec.get("differential", True):
         cc = corpus_cases(pid)
         if cc:
